@@ -41,24 +41,25 @@ func DefaultParams() Params { return Params{CacheBits: -1, MetaBits: -1} }
 // Features reports what the emitted stream actually contains (for coverage accounting).
 // Token and code statistics are summed over the main image and all sub-images.
 type Features struct {
-	W, H         int
-	Transforms   []string       // in bitstream order, e.g. "predictor/bits=3", "cross/bits=2", "subgreen", "palette/n=5/packbits=4"
-	TransformIDs []int          // same, as transform type numbers
-	PackBits     int            // bits per pixel index in the main image when colour-indexing is present (8, 4, 2 or 1); 0 = no palette
-	PredModes    map[int]int    // predictor mode -> number of tiles coded as a *literal* with that mode (0..13); copied/cached tiles are not counted
-	CacheBits    int            // main image
-	SubCacheBits map[int]int    // cache bits -> number of sub-images using it
-	MetaBits     int            // 0 = none
-	Groups       int            // number of prefix-code groups written (largest referenced index + 1)
-	GroupsUsed   int            // number of distinct groups referenced by the entropy image
-	CodeKinds    map[string]int // see the Kind* constants; counts over all prefix codes written (main image and sub-images)
-	Literals     int
-	CacheHits    int
-	BackRefs     int
-	PlaneCodes   map[int]int // distance prefix/plane code (1..120) -> uses; key 0 = explicit distance beyond the plane codes
-	MaxLen       int         // longest backward-reference length
-	MaxCodeLen   int         // longest prefix code length used (<=15)
-	Overlaps     int         // backward references with distance < length
+	TrivialCacheGroups int // groups whose five codes are all single-symbol with a cache index as the lone green symbol
+	W, H               int
+	Transforms         []string       // in bitstream order, e.g. "predictor/bits=3", "cross/bits=2", "subgreen", "palette/n=5/packbits=4"
+	TransformIDs       []int          // same, as transform type numbers
+	PackBits           int            // bits per pixel index in the main image when colour-indexing is present (8, 4, 2 or 1); 0 = no palette
+	PredModes          map[int]int    // predictor mode -> number of tiles coded as a *literal* with that mode (0..13); copied/cached tiles are not counted
+	CacheBits          int            // main image
+	SubCacheBits       map[int]int    // cache bits -> number of sub-images using it
+	MetaBits           int            // 0 = none
+	Groups             int            // number of prefix-code groups written (largest referenced index + 1)
+	GroupsUsed         int            // number of distinct groups referenced by the entropy image
+	CodeKinds          map[string]int // see the Kind* constants; counts over all prefix codes written (main image and sub-images)
+	Literals           int
+	CacheHits          int
+	BackRefs           int
+	PlaneCodes         map[int]int // distance prefix/plane code (1..120) -> uses; key 0 = explicit distance beyond the plane codes
+	MaxLen             int         // longest backward-reference length
+	MaxCodeLen         int         // longest prefix code length used (<=15)
+	Overlaps           int         // backward references with distance < length
 }
 
 // Keys of Features.CodeKinds.
@@ -678,10 +679,19 @@ func (g *gen) newGroup(cb int, greenPool, redPool []int) *group {
 	}
 	gr := &group{}
 	trivial := g.chance(0.04) // all of A,R,G,B single-symbol: a pixel costs zero bits
+	// all five codes single-symbol with a *colour-cache index* as the lone green symbol: every pixel
+	// of the group is a zero-bit cache lookup (decoders have a "trivial literal" fast path that must
+	// not fire here, since the lone green symbol is not a literal)
+	trivialCache := cb > 0 && !trivial && g.chance(0.06)
 	style := g.r.Intn(10)
 	var lit, lens, cache []int
 	hasCache := cb > 0 && style >= 5
 	switch {
+	case trivialCache:
+		cache = g.subset(seq(1<<uint(cb)), 1)
+		hasCache = false
+		trivial = true
+		g.f.TrivialCacheGroups++
 	case trivial:
 		lit = g.subset(greenPool, 1)
 		hasCache = false
@@ -730,7 +740,11 @@ func (g *gen) newGroup(cb int, greenPool, redPool []int) *group {
 	if g.chance(0.7) {
 		dpool = seq(14 + g.r.Intn(8))
 	}
-	gr.c[4] = g.buildCode(numDistance, g.subset(dpool, g.pickCount(len(dpool))), maxCodeLen)
+	nd := g.pickCount(len(dpool))
+	if trivialCache {
+		nd = 1
+	}
+	gr.c[4] = g.buildCode(numDistance, g.subset(dpool, nd), maxCodeLen)
 	return gr
 }
 
